@@ -1,5 +1,4 @@
-import Vflow.Proofs.SflowSpec
-import Vflow.Proofs.PacketSpec
+import Vflow.Proofs.SflowSpec2
 import Vflow.Gen.SflowLayouts
 /-!
 # C07 — sFlow samples and counters are decoded field for field
@@ -11,8 +10,9 @@ datagram — any number and order of flow / counter / unknown samples, any combi
 unknown records, any field values that fit their fields, IPv4 and IPv6 agents — built from the leaves
 upward: field list → record → sample → datagram.  The sampled packet header enters the sFlow layer as
 its octets together with what they dissect to (`AFlowRec.raw … hdr p` with `dissect hdr proto = ok p`);
-the dissector theorems below state, per layer, that each output field is the value at its RFC position
-(`dissect_eth_ipv4_tcp` … compose them for whole headers).
+the dissector theorems below state, per layer, that each output field is the value at its RFC position,
+`dissect_encodeHeader` composes them for every layer combination, and `decode_encode'` is the datagram
+theorem with raw-header records given by an abstract header (no dissection hypothesis left).
 
 The theorems are about the code after the `fix:` commits F5, F6, F7, F8, F14, F15 (the model mirrors it).
 -/
@@ -141,6 +141,101 @@ set_option maxRecDepth 20000 in
 example : decode [] (encodeSflow sample) = .ok (expected sample) ∧
     (expected sample).samples.length = 1 ∧ (expected sample).counters.length = 1 ∧
     ((expected sample).samples.map (·.recs.sw)) = [some ⟨100, 5, 200, 6⟩] := by decide
+
+/-! ## every header combination, and the datagram theorem over abstract headers
+
+`AHeader` (`Vflow.Proofs.HeaderSpec`) = optional Ethernet layer (MAC addresses, optional 802.1Q tag with
+4 priority bits and a 12-bit VLAN id; the ethertype is the one of the network layer, any other value is
+rejected by the code with `errUnknownEtherType`) × IPv4 (IHL = 5) | IPv6 × TCP | UDP | ICMP/ICMPv6.
+`eth = none` is sFlow header protocol 11 / 12.  No combination is excluded: the code accepts protocol
+numbers 1 and 58 as ICMP after either network layer.  The only place where the expected packet depends
+on the trailing payload is ICMP: the struct's `RestHeader` is `b[4:]`, i.e. the 4-octet rest of the
+header *followed by everything up to the end of the sampled header* — hence `expectedPacket h payload`. -/
+
+/-- **C07 (dissector, every combination)**: for every well-formed abstract sampled header — with or
+without Ethernet layer, with or without 802.1Q tag, IPv4 or IPv6, TCP, UDP or ICMP — and every trailing
+payload, `packet.Decoder` on the encoded header under its header protocol returns exactly the expected
+packet: every output field equals the abstract field laid out at its RFC position. -/
+theorem dissect_encodeHeader (h : AHeader) (payload : Bytes) (hwf : wfHeader h) :
+    dissect (encodeHeader h ++ payload) (protoOf h) = .ok (expectedPacket h payload) :=
+  Packet.dissect_encodeHeader h payload hwf
+
+/-- **C07 (datagram, abstract headers)**: the round trip with raw-header records given by an abstract
+header, payload and XDR padding; it needs only the well-formedness of the abstract datagram (field
+ranges, sampled header at most 1500 octets, protocol numbers consistent with the layers) -/
+theorem decode_encode' (d : ADatagram') (hwf : d.WF) : decode [] (encodeSflow' d) = .ok (expected' d) := by
+  have h := decode_enc' [] d hwf
+  have : dropTypes [] (expected' d) = expected' d := by simp [dropTypes]
+  rw [this] at h
+  exact h
+
+/-- 802.1Q tag (priority bits 0b1010, VLAN 100) + IPv4 + ICMP echo request -/
+def hdrVlanV4Icmp : AHeader :=
+  { eth := some ⟨[2, 0, 0, 0, 0, 1], [2, 0, 0, 0, 0, 2], some (10, 100)⟩,
+    net := .v4 ⟨4, 0, 34, 1, 2, 185, 64, 1, 0xabcd, [192, 0, 2, 1], [192, 0, 2, 2]⟩,
+    trans := .icmp 8 0 0x1234 [0, 1, 0, 2] }
+
+/-- plain Ethernet + IPv6 + TCP (SYN|ACK, data offset 5) -/
+def hdrEthV6Tcp : AHeader :=
+  { eth := some ⟨[2, 0, 0, 0, 0, 1], [2, 0, 0, 0, 0, 2], none⟩,
+    net := .v6 ⟨6, 0xb8, 0xabcde, 20, 6, 64, [0x20, 1, 0xd, 0xb8, 0, 0, 0, 0, 0, 0, 0, 0, 0, 0, 0, 1],
+                [0x20, 1, 0xd, 0xb8, 0, 0, 0, 0, 0, 0, 0, 0, 0, 0, 0, 2]⟩,
+    trans := .tcp 443 51000 1 2 5 0x12 1024 0 0 }
+
+/-- header protocol 11: the sampled header starts at the IPv4 header; UDP -/
+def hdrV4Udp : AHeader :=
+  { eth := none,
+    net := .v4 ⟨4, 0, 28, 7, 0, 0, 64, 17, 0, [192, 0, 2, 1], [192, 0, 2, 2]⟩,
+    trans := .udp 53 54 8 0 }
+
+theorem hdrVlanV4Icmp_wf : wfHeader hdrVlanV4Icmp := by
+  simp [wfHeader, hdrVlanV4Icmp, AEth.WF, ANet.WF, IPv4Hdr.WF, ATrans.WF, ATrans.protoOK, ANet.proto]
+theorem hdrEthV6Tcp_wf : wfHeader hdrEthV6Tcp := by
+  simp [wfHeader, hdrEthV6Tcp, AEth.WF, ANet.WF, IPv6Hdr.WF, ATrans.WF, ATrans.protoOK, ANet.proto]
+theorem hdrV4Udp_wf : wfHeader hdrV4Udp := by
+  simp [wfHeader, hdrV4Udp, ANet.WF, IPv4Hdr.WF, ATrans.WF, ATrans.protoOK, ANet.proto]
+
+set_option maxRecDepth 20000 in
+/-- non-vacuity (VLAN + IPv4 + ICMP): the hypotheses hold, and by evaluation the octets dissect to the
+VLAN id 100 (not the whole tag 0xa064), flags 2 / fragment offset 185, and an ICMP `RestHeader` that is
+the rest of the header followed by the payload -/
+example : wfHeader hdrVlanV4Icmp ∧ protoOf hdrVlanV4Icmp = 1 ∧
+    dissect (encodeHeader hdrVlanV4Icmp ++ [9, 9]) 1 =
+      .ok ⟨⟨[2, 0, 0, 0, 0, 2], [2, 0, 0, 0, 0, 1], 100, 0x0800⟩,
+           .v4 ⟨4, 0, 34, 1, 2, 185, 64, 1, 0xabcd, [192, 0, 2, 1], [192, 0, 2, 2]⟩,
+           .icmp 8 0 [0, 1, 0, 2, 9, 9]⟩ :=
+  ⟨hdrVlanV4Icmp_wf, rfl, by decide⟩
+
+set_option maxRecDepth 20000 in
+/-- non-vacuity (Ethernet + IPv6 + TCP) -/
+example : wfHeader hdrEthV6Tcp ∧ protoOf hdrEthV6Tcp = 1 ∧
+    dissect (encodeHeader hdrEthV6Tcp ++ []) 1 = .ok (expectedPacket hdrEthV6Tcp []) ∧
+    (expectedPacket hdrEthV6Tcp []).l4 = .tcp 443 51000 5 0 0x12 ∧
+    (expectedPacket hdrEthV6Tcp []).l2 = ⟨[2, 0, 0, 0, 0, 2], [2, 0, 0, 0, 0, 1], 0, 0x86DD⟩ :=
+  ⟨hdrEthV6Tcp_wf, rfl, by decide, rfl, rfl⟩
+
+set_option maxRecDepth 20000 in
+/-- non-vacuity (header protocol 11, IPv4 + UDP): the datalink part is the zero value -/
+example : wfHeader hdrV4Udp ∧ protoOf hdrV4Udp = 11 ∧
+    dissect (encodeHeader hdrV4Udp ++ [1, 2, 3]) 11 = .ok (expectedPacket hdrV4Udp [1, 2, 3]) ∧
+    expectedPacket hdrV4Udp [1, 2, 3] =
+      ⟨{}, .v4 ⟨4, 0, 28, 7, 0, 0, 64, 17, 0, [192, 0, 2, 1], [192, 0, 2, 2]⟩, .udp 53 54⟩ :=
+  ⟨hdrV4Udp_wf, rfl, by decide, rfl⟩
+
+/-- a well-formed abstract datagram whose flow sample carries the three headers above as raw-header
+records (44 + 2, 74 and 28 + 3 sampled octets: padding 2, 2 and 1), then a counter sample -/
+def sample' : ADatagram' :=
+  { agent := [10, 0, 0, 1], subID := 0, seqNo := 1, upTime := 2,
+    samples := [
+      .flow 7 0 5 1 2 0 3 4 [.raw 1500 4 hdrVlanV4Icmp [9, 9], .raw 90 4 hdrEthV6Tcp [], .raw 31 0 hdrV4Udp [1, 2, 3]],
+      .counter 9 2 17 [.known 1001 [1, 2, 3, 4, 5]]] }
+
+set_option maxRecDepth 100000 in
+/-- non-vacuity of `decode_encode'`: by evaluation, the concrete datagram decodes to its expected value;
+the last raw-header record wins the `RawHeader` slot of the sample (a Go map) -/
+example : decode [] (encodeSflow' sample') = .ok (expected' sample') ∧
+    ((expected' sample').samples.map (·.recs.raw)) = [some (expectedPacket hdrV4Udp [1, 2, 3])] ∧
+    (expected' sample').counters.length = 1 := by decide
 
 /-! ## Obligations over regenerated facts
 
